@@ -53,6 +53,7 @@ type c06Identity struct {
 	sep      string
 	srcAddr  string
 	passed   bool
+	utxCalls []string // the updateTXTimestamp calls, in source order
 }
 
 func c06Listener(files []*ast.File, fn string) (res c06Identity) {
@@ -130,6 +131,9 @@ func c06Listener(files []*ast.File, fn string) (res c06Identity) {
 			return true
 		}
 		calls[f.Name]++
+		if f.Name == "updateTXTimestamp" {
+			res.utxCalls = append(res.utxCalls, types.ExprString(call))
+		}
 		if len(call.Args) == 0 {
 			bad("%s called without arguments", f.Name)
 			return true
@@ -143,8 +147,10 @@ func c06Listener(files []*ast.File, fn string) (res c06Identity) {
 		}
 		return true
 	})
-	if calls["handleRequest"] != 1 || calls["updateTXTimestamp"] != 1 {
-		bad("expected one handleRequest and one updateTXTimestamp call, found %d and %d", calls["handleRequest"], calls["updateTXTimestamp"])
+	// one updateTXTimestamp after the send, and one in front of every `continue` that ends the
+	// iteration after handleRequest without a reply (the list itself is pinned: C06_pin_updateTxCalls)
+	if calls["handleRequest"] != 1 || calls["updateTXTimestamp"] < 1 {
+		bad("expected one handleRequest and at least one updateTXTimestamp call, found %d and %d", calls["handleRequest"], calls["updateTXTimestamp"])
 	}
 	return
 }
@@ -165,6 +171,8 @@ func init() {
 			fmt.Sprintf("def clientIdScionSep : String := %s", leanString(sc.sep)),
 			fmt.Sprintf("def clientIdIpSrcAddr : String := %s", leanString(ip.srcAddr)),
 			fmt.Sprintf("def clientIdScionSrcAddr : String := %s", leanString(sc.srcAddr)),
+			fmt.Sprintf("def updateTxCalls_runIPServer : List String := %s", c06LeanList(ip.utxCalls)),
+			fmt.Sprintf("def updateTxCalls_runSCIONServer : List String := %s", c06LeanList(sc.utxCalls)),
 			fmt.Sprintf("def fact_clientID_passed_runIPServer : Bool := %s", b(ip.passed)),
 			fmt.Sprintf("def fact_clientID_passed_runSCIONServer : Bool := %s", b(sc.passed)),
 		}
